@@ -4,8 +4,9 @@
 #include <string.h>
 #ifdef __CPROVER__
 #define IR2C_UB(c, what) __CPROVER_assert((c), "UB: " what)
-#define IR2C_TRAP() do { ir2c_trap_hook(); __CPROVER_assume(0); } while(0)
-#define IR2C_UNREACHABLE() do { __CPROVER_assert(0, "UB: reached llvm unreachable"); __CPROVER_assume(0); } while(0)
+/* no do-while(0) here: CBMC counts every do-while as a loop, which would shift the loop numbering ir2c reports */
+#define IR2C_TRAP() { ir2c_trap_hook(); __CPROVER_assume(0); }
+#define IR2C_UNREACHABLE() { __CPROVER_assert(0, "UB: reached llvm unreachable"); __CPROVER_assume(0); }
 #define IR2C_ATOMIC_BEGIN() __CPROVER_atomic_begin()
 #define IR2C_ATOMIC_END() __CPROVER_atomic_end()
 _Bool nondet_bool(void);
@@ -14,7 +15,7 @@ _Bool nondet_bool(void);
 #include <stdlib.h>
 #include <assert.h>
 #define IR2C_UB(c, what) assert((c) && what)
-#define IR2C_TRAP() do { ir2c_trap_hook(); abort(); } while(0)
+#define IR2C_TRAP() { ir2c_trap_hook(); abort(); }
 #define IR2C_UNREACHABLE() abort()
 #define IR2C_ATOMIC_BEGIN() ((void)0)
 #define IR2C_ATOMIC_END() ((void)0)
